@@ -122,6 +122,60 @@ Theorem C10_index_range_wrap_refuted :
 Proof. exact index_range_wrap_crash. Qed.
 Print Assumptions C10_index_range_wrap_refuted.
 
+(* Array.Without - with NewOffsetArray and its two trimming loops, clone and the hole punched into an inner cell -
+   on EVERY array satisfying the invariant and EVERY argument value (any kind, any index): it returns a value, never a
+   panic, never an error, and the value satisfies the invariant again (or is the empty set / unchanged) *)
+From Arrai Require Import Proofs.SeqSafeArrP.
+Theorem C10_array_without_never_panics :
+  forall (max_alloc : Z) (V : Type) (veq : V -> V -> bool), 0 < max_alloc <= 281474976710656 ->
+  forall (a : arr V) (x : arg V), inv_arr max_alloc V a ->
+    exists r, arr_without max_alloc V veq a x = Val r /\ inv max_alloc V r.
+Proof. intros max_alloc V veq Hmax a x Ha. exact (arr_without_safe max_alloc V veq Hmax a x Ha). Qed.
+Print Assumptions C10_array_without_never_panics.
+
+(* NewOffsetArray on any cells that are empty or hold an item: a value satisfying the invariant (the trimming is right) *)
+Theorem C10_new_offset_array_establishes_invariant :
+  forall (max_alloc : Z) (V : Type), 0 < max_alloc <= 281474976710656 ->
+  forall (off : Z) (vs : list (option V)), min_int <= off <= max_int -> len vs <= max_alloc ->
+    (vs = [] \/ exists x, In (Some x) vs) ->
+    exists r, new_offset_array V off vs = Val r /\ inv max_alloc V r.
+Proof. intros max_alloc V Hmax off vs Ho Hl Hs. exact (new_offset_array_inv max_alloc V off vs Ho Hl Hs). Qed.
+Print Assumptions C10_new_offset_array_establishes_invariant.
+
+(* a non-trivial instance: removing the first item of [1, hole, hole, 4] at offset -3 re-trims to [4] at offset 0 *)
+Example C10_array_without_example :
+  arr_without 4294967296 Z Z.eqb {| avals := [Some 1; None; None; Some 4]; aoff := -3; acnt := 2 |} (AItem Z (FInt (-3)) 1)
+  = Val (RArr Z {| avals := [Some 4]; aoff := 0; acnt := 1 |}).
+Proof. vm_compute. reflexivity. Qed.
+
+(* Array.withItem (= With on an item tuple), for EVERY array satisfying the invariant, EVERY index and item: a value
+   satisfying the invariant again; or the makeslice panic, and then only inside the dense-storage region given as a
+   predicate on (offset, len, index) (finding KF-C10-23); or the explicit superimposed-items panic, and then only when the
+   cell holds a different item (finding KF-C10-20).  No index / slice-bounds panic, no hang. *)
+From Arrai Require Import Proofs.SeqSafeArrWithP.
+Theorem C10_array_with_panics_only_in_recorded_regions :
+  forall (max_alloc : Z) (V : Type) (veq : V -> V -> bool), 0 < max_alloc <= 281474976710656 ->
+  forall (a : arr V) (atf : fnum) (item : V), inv_arr max_alloc V a ->
+    match arr_with_item max_alloc V veq a (int_of_float atf) item with
+    | Val r => inv max_alloc V r
+    | Panic s => (s = SMakeslice /\ dense_region max_alloc (aoff V a) (len (avals V a)) (int_of_float atf) = true) \/
+                 (s = SSuperimposed /\ superimposed_region V veq a (int_of_float atf) item = true)
+    | _ => False
+    end.
+Proof.
+  intros max_alloc V veq Hmax a atf item Ha.
+  exact (arr_with_item_safe max_alloc V veq Hmax a (int_of_float atf) item Ha (int_of_float_range atf)).
+Qed.
+Print Assumptions C10_array_with_panics_only_in_recorded_regions.
+
+(* non-trivial instances: filling a hole, and prepending two cells before the offset *)
+Example C10_array_with_example :
+  arr_with_item 4294967296 Z Z.eqb {| avals := [Some 1; None; Some 3]; aoff := 0; acnt := 2 |} 1 5
+  = Val (RArr Z {| avals := [Some 1; Some 5; Some 3]; aoff := 0; acnt := 3 |}) /\
+  arr_with_item 4294967296 Z Z.eqb {| avals := [Some 1; None; Some 3]; aoff := 0; acnt := 2 |} (-2) 5
+  = Val (RArr Z {| avals := [Some 5; None; Some 1; None; Some 3]; aoff := -2; acnt := 3 |}).
+Proof. split; vm_compute; reflexivity. Qed.
+
 (* the hypotheses are satisfiable by non-trivial values *)
 Example C10_inv_arr_example : inv_arr 4294967296 Z {| avals := [Some 1; None; None; Some 4]; aoff := -3; acnt := 2 |}.
 Proof. vm_compute. repeat split; congruence. Qed.
